@@ -153,6 +153,18 @@ def mutate_xml(xml, mut, r):
                 return None, "empty-attr"
             e.set(k, _alter_char(v, r.randrange(len(v)), r))
             desc = "attr:%s:%s@%s" % (mut.get("target"), e.tag.rsplit("}", 1)[-1], k)
+    elif where == "restyle-instant":
+        # the IssueInstant of the message element written as the SAME instant with a UTC offset designator
+        if target.tag == wire.q(wire.SOAPENV, "Envelope"):
+            body = target.find(wire.q(wire.SOAPENV, "Body"))
+            if body is None or len(body) != 1:
+                return None, "no-target"
+            target = body[0]
+        ep_ = wire.ts_epoch(target.get("IssueInstant"))
+        if ep_ is None:
+            return None, "no-instant"
+        target.set("IssueInstant", wire.fmt_ts(ep_, mut.get("style", "off+14:00")))
+        desc = "restyle-instant:%s" % mut.get("style", "off+14:00")
     elif where == "required-attr":
         # a schema-required attribute of the message element itself left empty or out
         if target.tag == wire.q(wire.SOAPENV, "Envelope"):
